@@ -734,7 +734,17 @@ func (i *interpreter) reflectExternals() map[string]externalFn {
 			}
 			return "<" + typeString(r.t) + " Value>"
 		},
-		"(reflect.Value).Len":   func(fr *frame, a []value) value { return rLen(rv(a[0])) },
+		"(reflect.Value).Len": func(fr *frame, a []value) value { return rLen(rv(a[0])) },
+		"(reflect.Value).Cap": func(fr *frame, a []value) value {
+			r := rv(a[0])
+			switch mustBe(r, "reflect.Value.Cap", reflect.Slice, reflect.Array, reflect.Chan) {
+			case reflect.Slice:
+				return cap(r.get().([]value))
+			case reflect.Array:
+				return len(r.get().(array))
+			}
+			panic(unsupported{"reflect Cap of chan"})
+		},
 		"(reflect.Value).IsNil": func(fr *frame, a []value) value { return rIsNil(rv(a[0])) },
 		"(reflect.Value).IsZero": func(fr *frame, a []value) value {
 			r := rv(a[0])
